@@ -367,15 +367,16 @@ func cloneNodes(l []*model.Node) []*model.Node {
 // splitter derives a pair (a, b) from one base tree by random split / overlay. With compat set only
 // roles that keep the pair mergeable are drawn (used by C04, which needs successful merges).
 type splitter struct {
-	rt       *rapid.T
-	v        *model.Variant
-	compat   bool // no conflicting roles
-	disjoint bool // nothing goes to both sides
-	rare     bool // conflicting roles are rare (so that single reasons decide the verdict)
-	focus    model.FKind // list kind whose overlapping roles are preferred (when hasFocus)
-	hasFocus bool
-	keep     func(*model.FieldInfo) bool // containers on the way to the focus kind always go to both sides
-	o        model.GenOpts
+	rt                *rapid.T
+	v                 *model.Variant
+	compat            bool        // no conflicting roles
+	disjoint          bool        // nothing goes to both sides
+	rare              bool        // conflicting roles are rare (so that single reasons decide the verdict)
+	leafConflictsOnly bool        // conflicting roles only for leaves (what MergeOverwriteExistingFields resolves)
+	focus             model.FKind // list kind whose overlapping roles are preferred (when hasFocus)
+	hasFocus          bool
+	keep              func(*model.FieldInfo) bool // containers on the way to the focus kind always go to both sides
+	o                 model.GenOpts
 }
 
 // fw scales the weight of an overlapping role of a list of kind k.
@@ -414,7 +415,7 @@ func (s *splitter) cw(x int) int {
 
 // lw returns the weight of a conflicting role of a whole list / leaf-list (few per tree, so not made rare).
 func (s *splitter) lw(x int) int {
-	if s.compat || s.disjoint {
+	if s.compat || s.disjoint || s.leafConflictsOnly {
 		return 0
 	}
 	return x
@@ -612,8 +613,12 @@ func (s *splitter) node(m *model.Node, keyLeaves map[string]bool, depth int) (*m
 					ea, eb := s.entry(f, e, depth)
 					a.List[name], b.List[name] = append(a.List[name], ea), append(b.List[name], eb)
 				}
-			case 6: // permutation: same keys, b reversed
+			case 6: // permutation: same keys, b reversed; or (three keys and more) b = a strict subset of a's keys in reverse order
 				ra, rb := both(l)
+				if n >= 3 && rapid.Bool().Draw(s.rt, "subsetperm") {
+					from := rapid.IntRange(1, n-2).Draw(s.rt, "subsetfrom")
+					rb = rb[from:]
+				}
 				for i, j := 0, len(rb)-1; i < j; i, j = i+1, j-1 {
 					rb[i], rb[j] = rb[j], rb[i]
 				}
